@@ -266,7 +266,8 @@ impl Debugger {
         if let Some(breakpoint) = self
             .breakpoints
             .get(pc)
-            .filter(|_| self.current_breakpoint != Some(pc))
+            // Only ignore breakpoint if no instruction was executed since it paused execution
+            .filter(|_| self.current_breakpoint != Some(pc) || self.instruction_count > 0)
         {
             if breakpoint.is_predefined {
                 dprintln!(
